@@ -13,6 +13,7 @@ from fractions import Fraction
 import numpy as np
 
 from ..poly import z3mod
+from ..tv import project_block
 from ..dromodels import CompiledDRO, dro_hold
 from ..drogen import members, lookup
 from ..smt import HarnessError, fval
@@ -110,12 +111,10 @@ def run_case(case, ses):
     blocks = cp.blocks(iface_cols)
     for bi, blk in enumerate(blocks):
         loc = sorted(blk['locals'])
-        bc = cp.block_cons(blk, vs)
         label = '%s/block%d(%dr,%dl)' % (name, bi, len(blk['rows']), len(loc))
         core = len(loc) <= 30
-        q = z3.ForAll([vs[j] for j in loc], z3.Not(z3.And(bc))) if loc else z3.Not(z3.And(bc))
-        res, model = ses.oblige(label, S + Sdefs, [q], kind='projection' if loc else 'projection-qf', core=core,
-                                twin=(bi == 0), sample=dict(model=name, rows=len(blk['rows']), locals=len(loc)))
+        res, model = project_block(ses, cp, blk, vs, S + Sdefs, label, 'projection' if loc else 'projection-qf', core,
+                                   twin=(bi == 0), sample=dict(model=name, rows=len(blk['rows']), locals=len(loc)))
         if res == 'sat':
             pt = {n: fval(model, vs[c]) for n, c in cm.iface.items()}
             data = dict(name=name, point={k: str(v) for k, v in pt.items()})
